@@ -48,12 +48,14 @@ def rule_defn(P) -> RuleResult:
         fi = f.impl
         off = 1 if (f.pass_context or f.pass_row) else 0
         params = fi.params[off:]
-        env = {p: Sym(f'p{i}') for i, p in enumerate(params)}
+        # arguments are terms of undecided truth (a bare symbol stands for an object and is true: `end or None` would never take its
+        # second branch)
+        env = {p: _arg(i) for i, p in enumerate(params)}
         for p in fi.params[:off]:
             env[p] = Sym('CONTEXT')
         # the definition, interpreted in the same module
         dnode = ast.parse(f'def _definition({", ".join(f"p{i}" for i in range(6))}):\n    return {DEFINITIONS[f.name]}').body[0]
-        denv = {f'p{i}': Sym(f'p{i}') for i in range(6)}
+        denv = {f'p{i}': _arg(i) for i in range(6)}
         denv['__fi__'] = fi
         dpaths = Engine(P).paths(dnode, denv)
         want = _resolve_names(canon(dpaths[0].value), fi.module)
